@@ -43,13 +43,20 @@ import (
 
 const (
 	defaultMemKB   = 4194304          // address-space cap of the children (KiB), as in C13.json
-	watchdogLimit  = 20 * time.Second // one decode may take this long before the child aborts itself
 	stallLimit     = 90 * time.Second // no new case for this long: the supervisor kills the child
 	exitHang       = 97               // exit code of a child whose watchdog fired
 	maxLoneRuns    = 20000            // safety valve per shard
 	progressIdle   = ^uint64(0)       // progress record of a child that is not inside a case
 	checkpointTick = time.Second
 )
+
+// watchdogLimit: one decode may take this long before the child aborts itself.
+var watchdogLimit = func() time.Duration {
+	if v, err := strconv.Atoi(os.Getenv("VERIF_DECODE_WATCHDOG_S")); err == nil && v > 0 { // self-test of the supervision only
+		return time.Duration(v) * time.Second
+	}
+	return 20 * time.Second
+}()
 
 func memKB() int {
 	if v, err := strconv.Atoi(os.Getenv("VERIF_DECODE_MEMLIMIT_KB")); err == nil && v > 0 {
@@ -161,6 +168,8 @@ func (w *watchdog) run() {
 			time.Sleep(500 * time.Millisecond)
 			if s := w.started.Load(); s != 0 && time.Since(time.Unix(0, s)) > watchdogLimit {
 				fmt.Fprintf(os.Stderr, "HARNESS-WATCHDOG: one decode has been running for more than %v; aborting\n", watchdogLimit)
+				buf := make([]byte, 1<<20)
+				os.Stderr.Write(buf[:runtime.Stack(buf, true)]) // where is it? (all goroutines; the supervisor picks the decoding one)
 				os.Exit(exitHang)
 			}
 		}
@@ -408,7 +417,8 @@ func runChild(mode, dir string) childExit {
 		os.Args[0], "-test.run", "^TestCheck$", "-test.timeout", "0", "-test.count", "1")
 	env := []string{}
 	for _, e := range os.Environ() {
-		if strings.HasPrefix(e, "VERIF_OUT=") || strings.HasPrefix(e, "VERIF_REPLAY=") || strings.HasPrefix(e, "GOMEMLIMIT=") || strings.HasPrefix(e, "VERIF_DECODE_") {
+		if strings.HasPrefix(e, "VERIF_OUT=") || strings.HasPrefix(e, "VERIF_REPLAY=") || strings.HasPrefix(e, "GOMEMLIMIT=") ||
+			strings.HasPrefix(e, "VERIF_DECODE_MODE=") || strings.HasPrefix(e, "VERIF_DECODE_DIR=") || strings.HasPrefix(e, "VERIF_DECODE_MEMLIMIT_KB=") {
 			continue
 		}
 		env = append(env, e)
@@ -467,48 +477,69 @@ wait:
 	return ex
 }
 
-// fatalSite finds the innermost function of the module under test in the first goroutine
-// trace that a dying Go process printed.
-func fatalSite(stderr string) string {
-	lines := strings.Split(stderr, "\n")
-	in := false
-	for _, l := range lines {
+// traceOf returns the lines of the goroutine trace that matters in the output of a dying Go
+// process: the goroutine that was decoding if several were printed (watchdog), else the first.
+func traceOf(stderr string) []string {
+	var blocks [][]string
+	for _, l := range strings.Split(stderr, "\n") {
 		if strings.HasPrefix(l, "goroutine ") {
-			if in {
-				break
+			blocks = append(blocks, nil)
+		}
+		if len(blocks) > 0 {
+			blocks[len(blocks)-1] = append(blocks[len(blocks)-1], l)
+		}
+	}
+	for _, b := range blocks {
+		for _, l := range b {
+			if strings.Contains(l, "harness/decode.decodeOne(") {
+				return b
 			}
-			in = true
+		}
+	}
+	if len(blocks) > 0 {
+		return blocks[0]
+	}
+	return nil
+}
+
+// fatalSite finds the innermost function of the module under test (not package log) in that trace.
+func fatalSite(stderr string) string {
+	for _, l := range traceOf(stderr) {
+		if !strings.HasPrefix(l, perunPrefix) {
 			continue
 		}
-		if !in || strings.HasPrefix(l, "\t") {
+		fn := strings.TrimPrefix(l, perunPrefix)
+		if strings.HasPrefix(fn, "log.") || strings.HasPrefix(fn, "log/") {
 			continue
 		}
-		if strings.HasPrefix(l, perunPrefix) {
-			fn := strings.TrimPrefix(l, perunPrefix)
-			if strings.HasPrefix(fn, "log.") || strings.HasPrefix(fn, "log/") {
-				continue
-			}
-			// cut the argument list: the last "(" that follows the function name
-			if i := strings.LastIndex(fn, "("); i > 0 {
-				fn = fn[:i]
-			}
-			return fn
+		if i := strings.LastIndex(fn, "("); i > 0 { // cut the argument list
+			fn = fn[:i]
 		}
+		return fn
 	}
 	return ""
 }
 
+// stderrDigest: what the process printed before its traces, then the trace that matters.
 func stderrDigest(s string) string {
 	var keep []string
 	for _, l := range strings.Split(s, "\n") {
+		if strings.HasPrefix(l, "goroutine ") {
+			break
+		}
 		l = strings.TrimRight(l, " \r")
 		if l == "" || strings.HasPrefix(l, "pkg/test:") {
 			continue
 		}
-		keep = append(keep, stripVolatile(l))
-		if len(keep) >= 28 {
+		if keep = append(keep, stripVolatile(l)); len(keep) >= 8 {
 			break
 		}
+	}
+	for i, l := range traceOf(s) {
+		if i >= 26 {
+			break
+		}
+		keep = append(keep, stripVolatile(strings.TrimRight(l, " \r")))
 	}
 	return strings.Join(keep, "\n")
 }
